@@ -166,6 +166,18 @@ def rule_link(S, la):
             g = la.facts.get(nd.get('callee'))
             if g is not None and g.fid in la.summary:
                 outs = [t for t in la.summary[g.fid]['keep'] if t[0] == 'out']
+                if any(t[0] == 'ret' for t in la.summary[g.fid]['keep']):
+                    # the callee returns a node it allocated and initialised (parent == nullptr)
+                    p_ = f.parent(nd)
+                    rv_ = None
+                    if p_ is not None and p_['k'] == 'DeclStmt':
+                        rv_ = p_['vars'][0]['id']
+                    elif p_ is not None and p_['k'] == 'BinaryOperator' and p_.get('op') == '=':
+                        l_ = f.strip(f.ch(p_)[0])
+                        rv_ = l_.get('id') if l_ is not None else None
+                    if rv_:
+                        parents = parents | {(('var', rv_), ('null',))} | {(la.tok(fi, f.ch(p_)[0]) if p_['k'] == 'BinaryOperator' else ('var', rv_), ('null',))}
+                        return (links, parents)
                 if outs:
                     # the callee hands over a node it allocated and initialised (parent == nullptr)
                     pidx = {p['id']: i for i, p in enumerate(g.params)}
